@@ -12,6 +12,7 @@ package main
 
 import (
 	"fmt"
+	"go/token"
 	"go/types"
 
 	"golang.org/x/tools/go/ssa"
@@ -126,4 +127,94 @@ func checkGlobalMemos(w *World, r *Report, rule string, only func(*ssa.Function)
 	if only == nil {
 		r.floor("writes to package-level tables outside init (incl. attribute cache)", n+nAttr, 1)
 	}
+}
+
+// R01.8 — package-level containers stay package-level.  A map or slice that lives in a
+// package-level variable is one object for the whole process.  If a function stores it into a
+// field of another object or returns it, every engine, policy or template built that way
+// aliases the same container, and the documented way of customising one of them (writing to
+// its exported map) silently changes all the others — the result of a render then depends on
+// what was configured elsewhere in the process.  Obligation: every load of a package-level
+// map/slice variable; it may be indexed, ranged over, measured and passed to calls, but never
+// flows (through phis, conversions and interface boxing) into a field store or a return value.
+func checkGlobalAliasing(w *World, r *Report, rule string) {
+	_, sp := w.ssa()
+	n := 0
+	for _, fn := range w.pkgFuncs() {
+		root := fn
+		for root.Parent() != nil {
+			root = root.Parent()
+		}
+		if root.Name() == "init" || root.Synthetic != "" {
+			continue
+		}
+		instrsOf(fn, func(in ssa.Instruction) {
+			u, ok := in.(*ssa.UnOp)
+			if !ok || u.Op != token.MUL {
+				return
+			}
+			g, ok := u.X.(*ssa.Global)
+			if !ok || g.Pkg != sp {
+				return
+			}
+			switch deref(g.Type()).Underlying().(type) {
+			case *types.Map, *types.Slice:
+			default:
+				return
+			}
+			n++
+			construct := "package-level container " + g.Name() + " is not handed out"
+			seen := map[ssa.Value]bool{}
+			var escape func(v ssa.Value) string
+			escape = func(v ssa.Value) string {
+				if seen[v] || v.Referrers() == nil {
+					return ""
+				}
+				seen[v] = true
+				for _, ref := range *v.Referrers() {
+					switch x := ref.(type) {
+					case *ssa.Phi, *ssa.MakeInterface, *ssa.ChangeType, *ssa.ChangeInterface:
+						if why := escape(x.(ssa.Value)); why != "" {
+							return why
+						}
+					case *ssa.Store:
+						if x.Val != v {
+							continue
+						}
+						switch a := x.Addr.(type) {
+						case *ssa.FieldAddr:
+							tn, f := fieldOfAddr(a)
+							return "stored into field " + tn + "." + f + " at " + w.posOf(x.Pos())
+						case *ssa.IndexAddr:
+							return "stored into an element at " + w.posOf(x.Pos())
+						case *ssa.Alloc:
+							// a local: follow its loads
+							if a.Referrers() != nil {
+								for _, ar := range *a.Referrers() {
+									if ld, ok := ar.(*ssa.UnOp); ok && ld.Op == token.MUL {
+										if why := escape(ld); why != "" {
+											return why
+										}
+									}
+								}
+							}
+						}
+					case *ssa.Return:
+						return "returned at " + w.posOf(x.Pos())
+					case *ssa.MapUpdate:
+						if x.Value == v {
+							return "stored into a map at " + w.posOf(x.Pos())
+						}
+					}
+				}
+				return ""
+			}
+			if why := escape(u); why != "" {
+				r.bad(rule, ssaName(fn), construct, w.posOf(in.Pos()), "the process-wide "+deref(g.Type()).String()+" "+g.Name()+" is "+why+": every object built this way shares one container, so customising one (or a write by its owner) changes what all the others do — results depend on what else happened in the process")
+			} else {
+				r.ok(rule, ssaName(fn), construct, w.posOf(in.Pos()), "only indexed / ranged over / passed to calls", false)
+			}
+		})
+	}
+	r.Counts["loads of package-level map/slice variables"] = n
 }
